@@ -133,6 +133,42 @@ pub assume_specification<'b, P: std::str::pattern::Pattern> [str::trim_end_match
     requires pattern_text::<P>(p).len() > 0,
     ensures r@ == strip_end(s@, pattern_text::<P>(p));
 
+/// `needle` occurs in `s` as a contiguous block
+pub open spec fn has_substring(s: Seq<char>, needle: Seq<char>) -> bool {
+    exists|i: int| 0 <= i <= s.len() - needle.len() && #[trigger] s.subrange(i, i + needle.len()) =~= needle
+}
+// TRUSTED[str-contains]: str::contains(pat) for a string/char pattern is the substring test (std doc).
+#[verifier::allow(undeclared_external_trait)]
+pub assume_specification<P: std::str::pattern::Pattern> [str::contains::<P>] (s: &str, p: P) -> (r: bool)
+    ensures r == has_substring(s@, pattern_text::<P>(p));
+// TRUSTED[string-with-capacity]: String::with_capacity returns an empty string (std doc).
+pub assume_specification [std::string::String::with_capacity] (n: usize) -> (r: String)
+    ensures r@ == Seq::<char>::empty();
+// TRUSTED[char-is-ascii-uppercase]: exact definition from the std doc.
+pub assume_specification [char::is_ascii_uppercase] (c: &char) -> (r: bool)
+    ensures r == ('A' <= *c && *c <= 'Z');
+// TRUSTED[char-is-ascii-lowercase]: exact definition from the std doc.
+pub assume_specification [char::is_ascii_lowercase] (c: &char) -> (r: bool)
+    ensures r == ('a' <= *c && *c <= 'z');
+// TRUSTED[char-is-ascii-alphabetic]: exact definition from the std doc.
+pub assume_specification [char::is_ascii_alphabetic] (c: &char) -> (r: bool)
+    ensures r == (('a' <= *c && *c <= 'z') || ('A' <= *c && *c <= 'Z'));
+// TRUSTED[char-to-ascii-lowercase]: exact definition from the std doc.
+pub assume_specification [char::to_ascii_lowercase] (c: &char) -> (r: char)
+    ensures r == ascii_lower_c(*c);
+// TRUSTED[char-is-ascii]: exact definition from the std doc.
+pub assume_specification [char::is_ascii] (c: &char) -> (r: bool)
+    ensures r == ((*c as u32) < 128);
+/// Unicode Alphabetic / Numeric (char::is_alphabetic / is_numeric): uninterpreted beyond ASCII
+pub uninterp spec fn unicode_alpha(c: char) -> bool;
+pub uninterp spec fn unicode_numeric(c: char) -> bool;
+// TRUSTED[char-is-alphabetic]: names char::is_alphabetic; only its ASCII restriction is assumed.
+pub assume_specification [char::is_alphabetic] (c: char) -> (r: bool)
+    ensures r == unicode_alpha(c), (c as u32) < 128 ==> r == (('a' <= c && c <= 'z') || ('A' <= c && c <= 'Z'));
+// TRUSTED[char-is-numeric]: names char::is_numeric; only its ASCII restriction is assumed.
+pub assume_specification [char::is_numeric] (c: char) -> (r: bool)
+    ensures r == unicode_numeric(c), (c as u32) < 128 ==> r == is_ascii_digit_c(c);
+
 /// bytes of the result of indexing a String by `i` (only fixed for the index types axiomatised below)
 pub uninterp spec fn string_index_bytes<I>(s: Seq<char>, i: I) -> Seq<u8>;
 /// UTF-8 bytes of an index result (`str` for range indices)
